@@ -338,11 +338,16 @@ func (e *vf18Env) guard(what string, detail func() string, f func()) (ok bool) {
 				var fr []string
 				for _, ln := range strings.Split(string(debug.Stack()), "\n") {
 					ln = strings.TrimSpace(ln)
-					if i := strings.Index(ln, "go-kardia/"); i >= 0 && strings.Contains(ln, ".go:") && !strings.Contains(ln, "zz_verif") {
+					if strings.Contains(ln, ".go:") && !strings.Contains(ln, "zz_verif") && !strings.Contains(ln, "/runtime/") && !strings.Contains(ln, "/testing/") {
 						if j := strings.Index(ln, " +0x"); j > 0 {
 							ln = ln[:j]
 						}
-						fr = append(fr, ln[i+len("go-kardia/"):])
+						if k := strings.LastIndex(ln, "/"); k >= 0 {
+							if k2 := strings.LastIndex(ln[:k], "/"); k2 >= 0 {
+								ln = ln[k2+1:]
+							}
+						}
+						fr = append(fr, ln)
 					}
 				}
 				if len(fr) > 6 {
@@ -1036,6 +1041,50 @@ func (e *vf18Env) lastCommitProbe(r *vfRand) {
 	e.receive(VoteChannel, peer, vf18Enc(&VoteMessage{v}), "past-height")
 }
 
+// polProbe: the validator whose turn it is (one of the three keys the harness holds) signs a proposal
+// for the node's current height/round with a POL round that cannot exist (>= the round); the node
+// must refuse it. If it keeps it, the gossip routine for a peer that lacks the proposal builds a
+// ProposalPOLMessage from a vote set that does not exist (found by the thorough tier: nil dereference
+// in MsgToProto inside gossipDataRoutine, which has no recover).
+func (e *vf18Env) polProbe(r *vfRand) {
+	cs := e.node.cs
+	if e.dead || cs.Proposal != nil || cs.Step > cstypes.RoundStepPropose {
+		return
+	}
+	prop := cs.Validators.GetProposer()
+	if prop == nil {
+		return
+	}
+	idx, ok := e.net.valIdx[prop.Address]
+	if !ok || idx == e.node.idx {
+		e.o.Stat("pol-probe/skipped-own-turn")
+		return
+	}
+	e.validMsgs(r) // makes sure e.blk / e.parts hold a valid block of this height
+	if e.blk == nil {
+		return
+	}
+	h, rd := cs.Height, cs.Round
+	pol := []uint32{rd, rd + 1, rd + 7, 1<<32 - 1}[r.Intn(4)]
+	msgs := e.net.byzProposalMsgs(idx, h, rd, pol, e.blk, e.parts, e.chainID)
+	if len(msgs) == 0 {
+		return
+	}
+	sender := vf18NewPeer("pol")
+	e.conR.InitPeer(sender)
+	e.receive(StateChannel, sender, vf18Enc(&NewRoundStepMessage{Height: h, Round: rd, Step: cstypes.RoundStepPropose, LastCommitRound: map[bool]uint32{false: 0, true: 1}[h > cs.state.InitialHeight]}), "pol-probe")
+	e.receive(DataChannel, sender, vf18Enc(msgs[0].Msg), "pol-probe")
+	if p := cs.Proposal; p != nil && p.POLRound != 0 && p.POLRound >= p.Round {
+		e.o.Viol("proposal-with-impossible-pol-round-kept", fmt.Sprintf("height %d round %d: proposal with POLRound %d kept (the POL round must be 0 or below the round)", h, rd, p.POLRound))
+	}
+	e.o.Stat(fmt.Sprintf("pol-probe/kept=%v", cs.Proposal != nil))
+	// a peer in the same height/round that has not seen the proposal: what the gossip routine does now
+	lag := vf18NewPeer("pol-lag")
+	e.conR.InitPeer(lag)
+	e.receive(StateChannel, lag, vf18Enc(&NewRoundStepMessage{Height: h, Round: rd, Step: cstypes.RoundStepPropose, LastCommitRound: map[bool]uint32{false: 0, true: 1}[h > cs.state.InitialHeight]}), "pol-probe")
+	e.gossip(lag, "pol-probe")
+}
+
 // step moves the node into another step by firing its pending timeouts.
 func (e *vf18Env) step(r *vfRand) {
 	for k := r.Intn(3); k > 0; k-- {
@@ -1096,6 +1145,9 @@ func TestVerifC18Receive(t *testing.T) {
 		}
 		e.lastAdv = nil
 		e.step(r)
+		if i%24 < 6 || r.Chance(10) {
+			e.polProbe(r)
+		}
 		peer := vf18NewPeer(fmt.Sprintf("p%d", i))
 		withState := !r.Chance(15)
 		if withState {
